@@ -154,6 +154,16 @@ def classify_run_exception(exc, allowed=(UserErr,)):
     return None
 
 
+class Payload(tuple):
+    """a message / item put into a stream: a tuple (producer, number) that is *falsy* when
+    producer + number is even - a valid payload (0, None, '' and empty containers are), which the
+    framework must never judge by its truth value"""
+    __slots__ = ()
+
+    def __bool__(self):
+        return (self[0] + self[-1]) % 2 == 1
+
+
 async def spin(n):
     """n postponements"""
     for _ in range(n):
